@@ -522,6 +522,9 @@ CHECKS = {
         'level': 'model_checking',
         'jobs': [
             R('pair1', 'xpair1'), R('star', 'xstar'),   # a cooked socket is the origin of what it sends: a hop count left on the message by the caller means nothing
+            # the raw sockets a device forwards between: a reply for a client that has left is dropped silently (an error
+            # from Send ends the device's forwarder for everybody else, device.go), round-8 change C09-m13
+            R('xrep', 'xrep'), R('xrespondent', 'xrespondent'),
             T('MC_Hops', 'Hops_quick.cfg', workers=4),
             T('MC_Hops', 'Hops_full.cfg', workers=4, tiers=('thorough',), timeout=3000),
             C('hops', 'TestHops', 'TraceHops', trivial_len=3, vtimeout=3000),
